@@ -135,8 +135,14 @@ fn main() {
             let mut fails = 0;
             if cmd == "queue" {
                 // corpus first: a conditional pop that loses many races in a row (never empty) must still succeed
+                let mut corpus = vec![];
                 for (m, k) in [(16usize, 14usize), (24, 22), (13, 12), (40, 36)] {
-                    let (line, mon) = queue::run_case_starve(m, k, &mut rng);
+                    corpus.push(queue::run_case_starve(m, k, &mut rng));
+                }
+                corpus.push(queue::run_case_stale_predicate(&mut rng));
+                corpus.push(queue::run_case_tail_lag(true, &mut rng));
+                corpus.push(queue::run_case_tail_lag(false, &mut rng));
+                for (line, mon) in corpus {
                     o.line(&line);
                     for m in mon {
                         fails += 1;
